@@ -37,10 +37,12 @@ def main():
         out["builds"] = rc == 0
         if rc != 0:
             print("BUILD FAILS\n" + o[-2000:]); return 3
-        for attempt in range(5):
+        # the suite has one test the baseline itself lists as flaky (Test_ConnectionViaNetwork) and uses fixed ports:
+        # a failure is retried; only a suite that fails four times in a row counts as failing with the change
+        for attempt in range(4):
             rc, o = sh("go test -vet=off -count=1 ./...", wt)
-            if rc != 0 and "address already in use" in o:
-                time.sleep(random.randint(5, 25)); continue
+            if rc != 0:
+                time.sleep(random.randint(3, 15)); continue
             break
         out["suite_passes_with_change"] = rc == 0
         if rc != 0:
